@@ -97,6 +97,7 @@ func ledgerScanC04(r *simrt.Run, n *simnode.Node, stage string) (receives int, c
 }
 
 func runC04(r *simrt.Run) {
+	r.WatchLocks() // a lock of the node that is never released is a violation, not a hang
 	t := r.T
 	mode := nomsim.SporkMode(t.Choose(3))
 	w := nomsim.NewWorld(r, nomsim.MockGenesis(mode))
